@@ -974,7 +974,10 @@ func CallRecv(c ssa.CallInstruction) ssa.Value {
 
 // NilCmpEdges finds `if v == nil` / `if v != nil` on value v; returns the block
 // entered when v is nil and the one entered when it is non-nil.
-func NilCmpEdges(fn *ssa.Function, match func(ssa.Value) bool) (out []struct{ If *ssa.If; Nil, NonNil *ssa.BasicBlock }) {
+func NilCmpEdges(fn *ssa.Function, match func(ssa.Value) bool) (out []struct {
+	If          *ssa.If
+	Nil, NonNil *ssa.BasicBlock
+}) {
 	for _, b := range fn.Blocks {
 		if len(b.Instrs) == 0 {
 			continue
@@ -1003,7 +1006,10 @@ func NilCmpEdges(fn *ssa.Function, match func(ssa.Value) bool) (out []struct{ If
 		if neg {
 			eq = !eq
 		}
-		e := struct{ If *ssa.If; Nil, NonNil *ssa.BasicBlock }{ifi, b.Succs[0], b.Succs[1]}
+		e := struct {
+			If          *ssa.If
+			Nil, NonNil *ssa.BasicBlock
+		}{ifi, b.Succs[0], b.Succs[1]}
 		if !eq {
 			e.Nil, e.NonNil = e.NonNil, e.Nil
 		}
